@@ -958,7 +958,7 @@ func irOrMax(v uint64) uint64 {
 
 func main() {
 	vf.Main("C16", "exploration", func(c *vf.Ctx) {
-		c.Rule = "one child process per trial: 0-400 instruments of all eight synchronous kinds over 1-4 meters, 0-300 observable instruments each with a RegisterCallback registration and 0-20 tracers are created through the global API; then a barrier releases installer(s) (SetMeterProvider, SetTracerProvider, SetTextMapPropagator) against creators, recorders, unregistrars (including of registrations made before installation) and span starters; a post-phase records on every handle, starts a span on every tracer and collects twice; GOMAXPROCS{2,4,16}; -race; interrupted-install trials (a fail-fast error handler panics or ends the goroutine inside SetMeterProvider, later API use watched); install-race trials (2-32 installers leaving a spin barrier, staggered by sub-microsecond spins, all starting with the same global, small population); late registrations listing an SDK-native observable next to a pre-install placeholder. distinct = distinct (population classes, workers, procs, which call kinds truly overlapped the installation) signatures"
+		c.Rule = "one child process per trial: 0-400 instruments of all eight synchronous kinds over 1-4 meters, 0-300 observable instruments each with a RegisterCallback registration and 0-20 tracers are created through the global API; then a barrier releases installer(s) (SetMeterProvider, SetTracerProvider, SetTextMapPropagator) against creators, recorders, unregistrars (including of registrations made before installation) and span starters; a post-phase records on every handle, starts a span on every tracer and collects twice; GOMAXPROCS{2,4,16}; -race; interrupted-install trials (a fail-fast error handler panics or ends the goroutine inside SetMeterProvider, later API use watched); install-race trials (2-32 installers leaving a spin barrier, staggered by sub-microsecond spins, all starting with the same global, small population); late registrations listing an SDK-native observable next to a pre-install placeholder; tracers asked for with version / schema URL / attributes, span scopes compared. distinct = distinct (population classes, workers, procs, which call kinds truly overlapped the installation) signatures"
 		c.Assume = []string{"deadlock = watchdog (8 s) followed by two identical stack samples 2 s apart of goroutines parked inside go.opentelemetry.io/otel frames; anything else that does not finish is inconclusive"}
 		otel.SetErrorHandler(otel.ErrorHandlerFunc(func(error) {}))
 		otel.SetLogger(logr.Discard())
